@@ -474,11 +474,19 @@ func httpFields(e *catalog.Entry) []field {
 	}
 	var fs []field
 	fs = append(fs, field{name: "http:Content-Length", vals: vs("minus-one", "-1", "zero", "0", "one", "1", "plus-1000", "+1000", "abc", "abc", "empty", "", "2^31", "2147483648", "2^63-1", "9223372036854775807", "2^63", "9223372036854775808", "2^64", "18446744073709551616",
-		"hex", "0x10", "blank-padded", " 5 ", "two-values", "5, 5", "conflicting", "5, 6", "float", "1.0", "e-notation", "1e3", "shorter-than-body", "@-1", "longer-than-body", "@+7"),
+		"hex", "0x10", "blank-padded", " 5 ", "two-values", "5, 5", "conflicting", "5, 6", "float", "1.0", "e-notation", "1e3", "shorter-than-body", "@-1", "longer-than-body", "@+7", "absent", "@absent", "absent-and-no-body", "@absent-empty"),
 		set: func(m *model, v string) {
 			m.tampers = append(m.tampers, func(b *s3c.Built) {
 				val := v
 				switch v {
+				case "@absent", "@absent-empty":
+					// neither Content-Length nor Transfer-Encoding
+					if v == "@absent-empty" {
+						b.Body = nil
+					}
+					b.Header.Del("Content-Length")
+					b.Header = append(b.Header, [2]string{"X-C20-No-Content-Length", "1"})
+					return
 				case "@-1":
 					val = strconv.Itoa(max(len(b.Body)-1, 0))
 				case "@+7":
